@@ -6,10 +6,22 @@ from kernelprop import *
 import oracles
 
 
+def deadlock_streams(c, rng, tier, results):
+    """more programs where the verdict is delicate: deadlocks with detached / pending futures around, join handles
+    polled by one task and awaited by another, park tokens (a missed or a false deadlock shows as a model difference)"""
+    per = 300 if tier == "quick" else 4000
+    res = {}
+    for prof in ("async_dl", "async_abort", "park", "chan_dl", "condvar_dl"):
+        lines = gen.batch(rng.next(), prof, per, f"c03x_{prof}_", ("random", "pct", "rr", "dfs"))
+        res["verdict_" + prof] = run_stream("c03x_" + prof, lines, "trace")
+    return res, apply_oracle(res, oracles.o_verdict)
+
+
 def run(tier, seed):
     return run_kernel_prop("C03", tier, seed, ["ShuttleProofs.C03"], "ShuttleProofs.KernelAudit", ["ShuttleProofs.C03."],
                            ["ShuttleProofs/C03.lean"], oracles.o_verdict,
-                           "deadlock_iff (iteration form), deadlock_verdict_sound/complete, deadlockList_exact, ok ⇒ all attached tasks finished, spurious-wakeable tasks offered but not counted — all programs, all schedulers")
+                           "deadlock_iff (iteration form), deadlock_verdict_sound/complete, deadlockList_exact, ok ⇒ all attached tasks finished, spurious-wakeable tasks offered but not counted — all programs, all schedulers",
+                           extra=deadlock_streams)
 
 
 def replay(path):
